@@ -110,6 +110,7 @@ func (it *Interp) intrinsic(name string, fn *ssa.Function, a []Val) Val {
 				c := p.buildCex("reach:"+id, "reach", "", vals)
 				it.ex.mu.Lock()
 				it.ex.reachSample[id] = c.Values
+				it.ex.reachCex[id] = c
 				it.ex.mu.Unlock()
 			}
 		}
